@@ -173,6 +173,8 @@ def finish_network(prng, n, motifs):
     order = [(mi, ei) for mi, m in enumerate(out) for ei in range(len(m["edges"]))]
     prng.shuffle(order)
     net = {"n": n, "motifs": out, "order": order}
+    if prng.random() < 0.15:
+        net["label_text"] = "per_edge"
     if prng.random() < 0.25:
         # vertices that belong to no motif (degree zero: ordinary in configuration-model networks); their product of
         # per-motif failure probabilities is empty = 1
@@ -255,7 +257,15 @@ def build_graph(net):
             G.add_nodes_from(iso)
         m = net["motifs"][mi]
         a, b = m["edges"][ei]
-        label = f"{m['key']}-{list(m['verts'])}-{[tuple(e) for e in m['edges']]}-{m['uid']}"
+        vs, es = list(m["verts"]), [tuple(e) for e in m["edges"]]
+        if net.get("label_text") == "per_edge":
+            # the SAME motif (key, vertex set, edge set, id) written differently on each of its edges: members rotated, edge
+            # list rotated and some pairs reversed - equivalent labels, different strings
+            r = (ei * 2 + 1) % max(1, len(vs))
+            vs = vs[r:] + vs[:r]
+            r2 = (ei + 1) % max(1, len(es))
+            es = [e if (i + ei) % 2 else e[::-1] for i, e in enumerate(es[r2:] + es[:r2])]
+        label = f"{m['key']}-{vs}-{es}-{m['uid']}"
         G.add_edge(a, b, CoverLabel=label)
     G.add_nodes_from(iso)           # no-op when already added
     return G
